@@ -1,6 +1,6 @@
 ------------------------------ MODULE DetTrace ------------------------------
 (* runs : {runs: <<[p, seed, order, obs]>>}  what each interpreter process printed *)
-(* pair : {nameA, nameB, sameContent, countInDoc}  two head_content payloads        *)
+(* pair : {nameA, nameB, sameContent, countInDoc, countInText}  two head_content payloads *)
 EXTENDS TraceBase, Naturals
 Functional(runs) ==
   \A a, b \in 1..Len(runs) : \A i \in 1..Len(runs[a].order), j \in 1..Len(runs[b].order) :
@@ -11,6 +11,7 @@ SameSeedFunctional(runs) ==
         runs[a].order[i] = runs[b].order[j] => runs[a].obs[i] = runs[b].obs[j]
 Injective(p) == /\ (p.nameA = p.nameB) = p.sameContent
                 /\ p.countInDoc = (IF p.sameContent THEN 1 ELSE 2)
+                /\ p.countInText = (IF p.sameContent THEN 1 ELSE 2)
 VARIABLES tid, verdict
 vars == <<tid, verdict>>
 Clauses(e) ==
@@ -19,7 +20,8 @@ Clauses(e) ==
        <<"C18:IdenticalAcrossInterpreterProcessesAndHashSeeds", Functional(e.runs)>> >>
   ELSE
     << <<"C18:HeadContentNameIsAFunctionOfRenderedContentOnly", (e.nameA = e.nameB) = e.sameContent>>,
-       <<"C18:EqualContentIncludedOnceDifferentContentNeverMerged", e.countInDoc = (IF e.sameContent THEN 1 ELSE 2)>> >>
+       <<"C18:EqualContentIncludedOnceDifferentContentNeverMerged", e.countInDoc = (IF e.sameContent THEN 1 ELSE 2)
+                                                                          /\ e.countInText = (IF e.sameContent THEN 1 ELSE 2)>> >>
 Judge(e) == [fail |-> FailList(Clauses(e))]
 Init == tid \in 1..NChunks /\ verdict = "run"
 Check == /\ verdict = "run" /\ verdict' = "done" /\ LogChunk(tid, Judge) /\ UNCHANGED tid
